@@ -1,6 +1,7 @@
 (* The commands the receive thread handles inline NOW, and what their handlers do NOW (probed on
    recording sockets by harness/gen_c18.py), are what Model/NodeQueue.v says. *)
 From Coq Require Import ZArith List Bool.
+Require Coq.Strings.String.
 Require Import Bits.Lib.Bytes Bits.Model.NodeQueue Bits.Spec.NodeQueue.
 Require Bits.Gen.NodeGen.
 Import ListNotations.
@@ -67,3 +68,24 @@ Proof.
   intros s t m _. destruct m; cbn; unfold upd; rewrite ?Nat.eqb_refl, ?app_nil_r; repeat split; auto;
     intros p Hp; apply Nat.eqb_neq in Hp; now rewrite Hp.
 Qed.
+
+(* Static shape of Node.recv_loop (read from its source by harness/gen_c18.py, fail-closed): the only
+   operations on the node's state are the ones [step] models - the exit test, the receive on the peer's
+   own socket, ONE membership test, and then EXACTLY ONE statement in each branch: the handler call, or
+   the single append of (peer_no, command, payload).  In particular the enqueue branch neither reads
+   (len, iteration) nor modifies the shared queue apart from that append, so the (A) step of the model
+   is one atomic deque operation and nothing else. *)
+Definition str (s : Coq.Strings.String.string) : bytes := Coq.Strings.String.list_byte_of_string s.
+Import Coq.Strings.String.
+Local Open Scope string_scope.
+Definition expected_recv_loop_ops : list (Coq.Strings.String.string * Coq.Strings.String.string) :=
+  [ ("while",         "not self._peer_threads[peer_no].exit_event.is_set()");
+    ("while/try",     "start_bytes, command, payload = recv_msg(self._peer_sockets[peer_no])");
+    ("while/if",      "command in self._registered_commands_to_handle");
+    ("while/if/then", "self.handle_command(peer_no, command, payload)");
+    ("while/if/else", "self._msg_queue.append((peer_no, command, payload))");
+    ("top",           "self._peer_sockets[peer_no].close()") ].
+
+Theorem gen_recv_loop_shape :
+  Bits.Gen.NodeGen.recv_loop_ops = map (fun p => (str (fst p), str (snd p))) expected_recv_loop_ops.
+Proof. vm_compute. reflexivity. Qed.
